@@ -19,11 +19,21 @@ from fractions import Fraction
 
 import numpy as np
 
+import common
 from common import Ctx, Finding, Outcome, err_class
 
+import sys
+
+sys.path.insert(0, str(common.VERIF / "tools"))
+import gen_periodic  # noqa: E402  (the C06 model behind Driver/C04b.lean reads the generated periodic table)
+
 PROPERTY = "C04"
-LEAN_TARGETS = ["QcelVerif.Props.C04", "QcelVerif.Driver.C04"]
+LEAN_TARGETS = ["QcelVerif.Props.C04", "QcelVerif.Driver.C04", "QcelVerif.Props.C04C06", "QcelVerif.Driver.C04b"]
 DRIVER = "QcelVerif/Driver/C04.lean"
+# second stream: the same lines through a driver that COMPUTES the per-atom reconciliation with the C06 model
+# (Model/ReconC06.lean) instead of reading the implementation's answers from the line — from_arrays end to end in Lean
+DRIVER_C06 = "QcelVerif/Driver/C04b.lean"
+TRANSLATORS = [gen_periodic.main]
 THEOREMS = [
     ("QcelVerif.FromArrays.from_arrays_inv",
      "fromArrays env i = ok r -> Inv r (equal per-atom lengths, 3 coordinates per atom, every atom's (A,Z,E,mass,real,label) "
@@ -48,12 +58,49 @@ THEOREMS = [
     ("QcelVerif.FromArrays.seps_pattern_roundtrip",
      "for separators passing the trial split: the pattern np.split(arange(nat), seps) written by to_schema flattens to arange(nat) "
      "and contiguize gives back the canonical separators, which split every array exactly as the original ones"),
+    # ---- C04 o C06 (Props/C04C06.lean): the reconciler parameter instantiated with the C06 model over the shipped table
+    ("QcelVerif.FromArrays.recon_c06_sound_shipped",
+     "NucSound discharged: every answer of the C06 model (shipped table, ANY rounding function) behind the adapter is ValidC06 — a table row (Z,E); "
+     "A = -1 or E+str(A) tabulated with mass equal / float-evaluated within mtol; physical ranges unless nonphysical; real a bool; tag lower-case"),
+    ("QcelVerif.FromArrays.recon_c06_respects_clues", "the adapted reconciler returns every supplied Z, A, float(mass), real; real=True when nothing says otherwise"),
+    ("QcelVerif.FromArrays.from_arrays_inv_c06",
+     "UNCONDITIONAL: fromArrays (envC06 rd a) i = ok r -> Inv r with every atom ValidC06 (no hypothesis on the reconciler left; any rounding function)"),
+    ("QcelVerif.FromArrays.from_schema_inv_c06", "UNCONDITIONAL: the same through fromSchema (Bohr, default tooclose/mtol)"),
+    ("QcelVerif.FromArrays.recon_c06_idem_partial",
+     "PARTIAL NucIdem: an answer that is SelfConsistent (mass a rounded number; round(mass) names E+str(A) within mtol, or nothing and A = -1) fed back with "
+     "speclabel=False is answered by itself; any coherent round-tripping table, any odd rounding function. FULL NucIdem is false (recon_c06_not_idem)"),
+    ("QcelVerif.FromArrays.recon_c06_idem_mass_clue_fix", "NucIdem whenever the mass clue m was supplied and rd (rd m) = rd m (e.g. m already a double); odd rounding function"),
+    ("QcelVerif.FromArrays.recon_c06_idem_mass_clue", "NucIdem in full whenever the mass clue was supplied (odd idempotent rounding function)"),
+    ("QcelVerif.FromArrays.recon_c06_idem_on_feedback", "NucIdem in full on clues that are themselves a fed-back answer (clueOf v always carries the mass)"),
+    ("QcelVerif.FromArrays.recon_c06_not_idem",
+     "NucIdem (reconOfC06 rd64) is FALSE [decide +kernel, shipped table]: A=2, Z=1, mtol=2 -> (2,1,'H',mass(H1)), fed back -> ValidationError (replayed on the implementation)"),
+    ("QcelVerif.FromArrays.from_arrays_idempotent_c06_partial",
+     "PARTIAL: fromArrays (envC06 rd a) i = ok r and every atom of r SelfConsistent for i.mtol -> fromArrays (asInput i r) = ok r (odd rounding function; shipped_coherent discharged)"),
+    ("QcelVerif.FromArrays.from_arrays_idempotent_c06_masses_fix", "fixed point when every mass was supplied and each supplied m has rd (rd m) = rd m (odd rounding function)"),
+    ("QcelVerif.FromArrays.from_arrays_idempotent_c06_masses", "full fixed point when every mass was supplied (odd idempotent rounding function)"),
+    ("QcelVerif.FromArrays.from_arrays_second_pass_c06",
+     "from the second pass on from_arrays is a projection: fromArrays (asInput i r) = ok r' -> fromArrays (asInput i r') = ok r', for ANY r (odd idempotent rounding function)"),
+    ("QcelVerif.FromArrays.from_arrays_second_pass_c06_rd64",
+     "the same for rd64 with no hypothesis on the rounding function: the masses of the fed-back record are binary64 numbers (rd64 m = m)"),
+    ("QcelVerif.FromArrays.from_arrays_idempotent_c06_plain",
+     "UNCONDITIONAL for rd64 + shipped table: no elea, no mass, labels not consulted as nucleus specs, mtol >= 0 -> the record fed back is returned unchanged"),
+    ("QcelVerif.FromArrays.shipped_default_rederives", "[decide +kernel over the element rows] under rd64 every default mass rounds half-even to its default mass number and is a double"),
+    ("QcelVerif.FromArrays.from_arrays_not_idempotent_c06",
+     "[decide +kernel, whole pipeline] one H atom, elea=[2], elez=[1], mtol=2: the record (A=2, mass of H1) is returned and fed back it is refused — why the partial theorem needs SelfConsistent"),
+    ("QcelVerif.FromArrays.rd64_odd", "rd64 (-x) = -(rd64 x): the oddness hypothesis of the idempotence theorems holds for the driver's rounding function"),
+    ("QcelVerif.FromArrays.driver_recon_eq", "the reconciler run by Driver/C04b.lean (memoised per-element ranges) is reconOfC06 rd64"),
+    ("QcelVerif.FromArrays.selfConsistentB_iff", "the driver's per-atom test (ops FAq/FSq) decides SelfConsistent — the hypothesis of the partial theorem is evaluated on every accepted record"),
 ]
 TRUSTED_BASE = [
     "Lean 4.33 kernel; axioms per theorem audited on every run (subset of propext, Classical.choice, Quot.sound)",
     "hand-written model Model/FromArrays.lean of from_arrays.py:301-408,411-501,504-547,594-616,619-702,705-773 and from_schema.py, "
     "tied by differential correspondence on the generated stream through from_arrays, from_schema and Molecule(...)",
-    "reconcile_nucleus taken as a parameter (hypotheses NucSound / NucIdem, to be discharged by C06); its answers travel on the line protocol",
+    "reconcile_nucleus taken as a parameter (hypotheses NucSound / NucIdem) in Props/C04.lean; its answers travel on the line protocol of the first stream",
+    "Props/C04C06.lean instantiates the parameter with the C06 model over the generated periodic table (adapter Model/ReconC06.lean: Clue->Input, Output->Nuc, error classes); "
+    "NucSound is discharged in full, NucIdem is false in general and proved for self-consistent atoms / supplied masses / plain molecules; residual: rd odd (proved for rd64) "
+    "and, for the supplied-mass theorems, rd idempotent (not proved for rd64; rd64 is tied to float() by C06's D lines); the second stream (Driver/C04b.lean) runs the whole "
+    "pipeline in Lean with the C06 model and is diffed against the implementation and against the first stream",
+    "tools/gen_periodic.py (C01's translator) for the periodic table read by the C06 model",
     "C05 model ChgMult.vfc and its theorems vfc_sound / vfc_accepts_valid_full (reused unchanged)",
     "numpy: np.array/reshape, np.split (re-stated as Python slice arithmetic), einsum distances in double vs exact rationals (1e-9 exclusion zone)",
     "pydantic v1 field coercion in Molecule.__init__ and _filter_defaults (default-mass test, caller's raw values surviving `{**kwargs, **schema}`): compared behaviourally only (partial)",
@@ -73,12 +120,17 @@ RULE = (
     "partial charge/multiplicity specifications biased to satisfiable, unit spellings, input_units_to_au, frame flags, bonds; about 80% valid, "
     "plus a malformed stream applying one defect (length mismatch, geometry not 3n, overlapping atoms, bad unit, bad separators incl. negative, "
     "fragment-array lengths, contradictory nuclear data, bad bonds, bad frame flag, bad schema name/version/fragment pattern). Each case goes through "
-    "from_arrays(**kw), or from_schema(dict) and Molecule(**kw); every accepted record is fed back. A case is distinct by its full protocol line and "
+    "from_arrays(**kw), or from_schema(dict) and Molecule(**kw); every accepted record is fed back. Every line and every fed-back record is answered twice by Lean: "
+    "with the implementation's own reconcile_nucleus answers carried on the line (Driver/C04.lean) and with the per-atom reconciliation computed by the C06 model "
+    "(Driver/C04b.lean, the whole pipeline in Lean). A case is distinct by its full protocol line and "
     "non-trivial when it has >= 2 atoms, an omitted descriptor, more than one fragment or ends in a refusal."
 )
 LEVEL_TEXT = (
     "proof for the record-level pipeline of from_arrays/from_schema (model), parametric in the per-atom reconciler (C06) and reusing C05; "
-    "the tie to the code is differential (sampled); partial: pydantic coercion in Molecule.__init__ and _filter_defaults are compared behaviourally only"
+    "with the C06 model plugged in (Props/C04C06.lean) the invariant is unconditional and the fixed point is proved for self-consistent atoms, supplied masses, "
+    "plain molecules and every second pass — partial: false for mtol wide enough to reach a neighbouring nuclide (kernel-checked counter-example), and not proved "
+    "for a mass number supplied without a mass; the tie to the code is differential (sampled) on two streams (reconciler answers taken from the implementation / "
+    "computed by the C06 model end to end); partial: pydantic coercion in Molecule.__init__ and _filter_defaults are compared behaviourally only"
 )
 TECHNIQUE = "Lean 4 proof of invariant/idempotence/refusal theorems about a stage-by-stage model + differential correspondence through three entry points + independent oracle"
 
@@ -1231,14 +1283,43 @@ def case_key(case):
     return json.dumps(case, sort_keys=True, default=str)
 
 
+def run_streams(ctx: Ctx, lines):
+    """the same lines through both drivers, concurrently: (answers with the implementation's reconcile_nucleus table,
+    answers with the per-atom reconciliation computed by the C06 model)"""
+    from concurrent.futures import ThreadPoolExecutor
+
+    if not lines:
+        return [], []
+    with ThreadPoolExecutor(max_workers=2) as ex:
+        fa = ex.submit(ctx.run_model, DRIVER, lines)
+        fb = ex.submit(ctx.run_model, DRIVER_C06, lines)
+        return fa.result(), fb.result()
+
+
+def idem_class(kw, st):
+    """which theorem of Props/C04C06.lean covers the fixed point of this input (distribution only)"""
+    def absent(k):
+        v = kw.get(k)
+        return v is None or all(x is None or (k == "elea" and x == -1) for x in v)
+
+    if kw.get("mass") is not None and all(x is not None for x in kw["mass"]):
+        return "all_masses_supplied(from_arrays_idempotent_c06_masses)"
+    if absent("elea") and absent("mass") and (not st["speclabel"] or absent("elbl")) and st["mtol"] >= 0:
+        return "plain(from_arrays_idempotent_c06_plain)"
+    return "isotope_without_mass_or_mixed(from_arrays_idempotent_c06_partial: SelfConsistent hypothesis)"
+
+
 def evaluate(ctx: Ctx, out: Outcome, cases):
     lines = [primary_line(c) for c in cases]
     model = [None] * len(cases)
+    model6 = [None] * len(cases)
     if ctx.model_available:
-        model = ctx.run_model(DRIVER, lines)
+        model, model6 = run_streams(ctx, lines)
     feedback = []  # (index, line, canon of the implementation's record)
+    sc_lines = []  # (index, primary line with op FAq/FSq): is the hypothesis of from_arrays_idempotent_c06_partial met?
+    not_fixed = set()  # indices where the implementation's record fed back did not come back unchanged
     results = []
-    for idx, (case, line, ml) in enumerate(zip(cases, lines, model)):
+    for idx, (case, line, ml, ml6) in enumerate(zip(cases, lines, model, model6)):
         entry, st = case["entry"], case["st"]
         res = impl_primary(case)
         results.append(res)
@@ -1261,6 +1342,8 @@ def evaluate(ctx: Ctx, out: Outcome, cases):
             raise RuntimeError(f"driver could not parse the line for case {case_key(case)[:400]}")
         if ml is not None and "TABLE-MISS" in ml:
             raise RuntimeError(f"reconciler table incomplete for case {case_key(case)[:400]}")
+        if ml6 is not None and ml6.startswith("bad-op"):
+            raise RuntimeError(f"driver (C06 stream) could not parse the line for case {case_key(case)[:400]}")
         nfr = 1
         if res[0] == "ok" and entry != "MOL":
             nfr = len(res[1]["fragment_separators"]) + 1
@@ -1299,11 +1382,14 @@ def evaluate(ctx: Ctx, out: Outcome, cases):
             back = _quiet(lambda: from_arrays(**feed_back_args(rec, fst)))
             cb = canon_rec(back[1]) if back[0] == "ok" else "err " + back[1]
             if cb != ci:
+                not_fixed.add(idx)
                 out.violations.append(Finding("oracle:not_fixed_point", case, observed=cb[:600], expected=ci[:600],
                                               detail="from_arrays(speclabel=False, **rec) != rec: " + (first_diff(ci, cb) if back[0] == "ok" else back[2])))
             bst = dict(fst)
             bst.update(speclabel=False, zgf=False)
             feedback.append((idx, enc_line("FA", rec_as_kw(rec), bst), ci))
+            sc_lines.append((idx, line[:2] + "q" + line[2:]))
+            out.count("fixed_point_covered_by:" + idem_class(case["kw"], dict(st, speclabel=False) if entry == "FS" else st))
         if res[0] == "ok" and entry == "MOL":
             import qcelemental as qcel
 
@@ -1355,16 +1441,47 @@ def evaluate(ctx: Ctx, out: Outcome, cases):
                         out.mismatches.append(Finding("mismatch:MOL", case, observed=ci, expected=ml, detail="Molecule accepted what the from_schema model refuses"))
                     elif ml != ci:
                         out.mismatches.append(Finding("mismatch:MOL", case, observed=ci, expected=ml, detail="error class"))
-    # ---------------- second pass: the accepted records through the model again
+        # ---------------- correspondence, second stream: the per-atom reconciliation computed by the C06 model
+        if ml6 is not None:
+            out.count("c06_stream:" + entry)
+            if entry != "MOL":
+                # (a disagreement shared with the first stream has been reported there)
+                if ml6 != ci and not (ml is not None and ml6 == ml):
+                    out.mismatches.append(Finding("mismatch:c06:" + entry, case, observed=ci[:600], expected=ml6[:600],
+                                                  detail="implementation vs Lean from_arrays with the C06 model as reconciler (end to end): "
+                                                  + (first_diff(ci, ml6) if ci.startswith("ok") and ml6.startswith("ok") else "")))
+            elif ml is not None and ml6 != ml:
+                out.mismatches.append(Finding("mismatch:c06:MOL", case, observed=ml[:600], expected=ml6[:600],
+                                              detail="from_schema model with the implementation's reconcile_nucleus answers vs with the C06 model: "
+                                              + (first_diff(ml, ml6) if ml.startswith("ok") and ml6.startswith("ok") else "")))
+    # ---------------- the hypothesis of the partial fixed-point theorem, evaluated by Lean on every accepted record
+    if ctx.model_available and sc_lines:
+        for (idx, _l), a in zip(sc_lines, ctx.run_model(DRIVER_C06, [l for _, l in sc_lines])):
+            if a.startswith("sc T "):
+                out.count("SelfConsistent_hypothesis(from_arrays_idempotent_c06_partial):holds")
+                if idx in not_fixed:
+                    out.mismatches.append(Finding("mismatch:c06:selfconsistent_not_fixed", cases[idx], observed="implementation: record fed back differs", expected=a,
+                                                  detail="every atom of the model's record is SelfConsistent (so the model's record IS a fixed point, by theorem) but the implementation's is not"))
+            elif a.startswith("sc F "):
+                out.count("SelfConsistent_hypothesis(from_arrays_idempotent_c06_partial):fails")
+            elif a.startswith("bad-op"):
+                raise RuntimeError(f"FAq/FSq line not understood by the driver: {case_key(cases[idx])[:300]}")
+            else:
+                out.count("SelfConsistent_hypothesis(from_arrays_idempotent_c06_partial):model_refuses")
+    # ---------------- second pass: the accepted records through the model again (both streams)
     if ctx.model_available and feedback:
-        ans = ctx.run_model(DRIVER, [l for _, l, _ in feedback])
-        for (idx, _l, ci), ml in zip(feedback, ans):
+        ans, ans6 = run_streams(ctx, [l for _, l, _ in feedback])
+        for (idx, _l, ci), ml, ml6 in zip(feedback, ans, ans6):
             out.count("fed_back")
-            if "TABLE-MISS" in ml or ml.startswith("bad-op"):
-                raise RuntimeError(f"feed-back line not understood by the driver: {ml} / {case_key(cases[idx])[:300]}")
+            if "TABLE-MISS" in ml or ml.startswith("bad-op") or ml6.startswith("bad-op"):
+                raise RuntimeError(f"feed-back line not understood by the driver: {ml} / {ml6} / {case_key(cases[idx])[:300]}")
             if ml != ci:
                 out.mismatches.append(Finding("mismatch:feedback", cases[idx], observed=ci[:600], expected=ml[:600],
                                               detail="model on the implementation's record (fed back) does not return it: " + (first_diff(ci, ml) if ml.startswith("ok") else ml)))
+            if ml6 != ci and ml6 != ml:
+                out.mismatches.append(Finding("mismatch:c06:feedback", cases[idx], observed=ci[:600], expected=ml6[:600],
+                                              detail="Lean from_arrays with the C06 model on the implementation's record (fed back) does not return it: "
+                                              + (first_diff(ci, ml6) if ml6.startswith("ok") else ml6)))
     return results
 
 
@@ -1374,6 +1491,12 @@ def run(ctx: Ctx) -> Outcome:
     evaluate(ctx, out, cases)
     ok = sum(v for k, v in out.distribution.items() if k.startswith("outcome:") and k.endswith(":ok"))
     out.notes.append(f"accepted {ok} of {out.evaluations} generated cases ({100.0*ok/max(out.evaluations,1):.1f}%); valid-tagged stream: see tag:valid")
+    n6 = sum(v for k, v in out.distribution.items() if k.startswith("c06_stream:"))
+    out.notes.append(f"second stream: {n6} lines + {out.distribution.get('fed_back', 0)} fed-back records through Driver/C04b.lean (per-atom reconciliation computed by the C06 model, "
+                     "the implementation's answers on the line ignored) and compared with the implementation")
+    h = out.distribution.get("SelfConsistent_hypothesis(from_arrays_idempotent_c06_partial):holds", 0)
+    f = out.distribution.get("SelfConsistent_hypothesis(from_arrays_idempotent_c06_partial):fails", 0)
+    out.notes.append(f"hypothesis of the partial fixed-point theorem (every atom SelfConsistent), decided by Lean on each accepted from_arrays/from_schema record: holds on {h}, fails on {f}")
     out.notes.append("all cases sampled from VERIF_SEED; Molecule(...) compared field-by-field with the from_schema model record (geometry to 8 decimals, _filter_defaults re-stated) — behavioural, partial")
     out.exhaustive = False
     return out
